@@ -22,7 +22,9 @@
 // the validators ran.  Such a failure is the listed finding
 // C10-shared-backing-append only if the log has a range slice with fewer than two
 // elements and spare capacity (the one case the unchanged code does not
-// re-allocate before appending); otherwise it is a violation.
+// re-allocate before appending) and every write to the memory behind the log so
+// far was either a permutation inside one slice or within reach (cap) of such a
+// small slice; otherwise it is a violation.
 package main
 
 import (
@@ -143,33 +145,48 @@ func (b bitmap) String() string {
 
 // bytes per TYPE-NAME RANK (the message text of the actors validator does not
 // tell two artifacts of one type apart)
-func (f *hflow) byRank(b bitmap, rank map[string]int) map[int]map[uint64]bool {
-	out := map[int]map[uint64]bool{}
+type byteSets map[int][]bool
+
+func (f *hflow) byRank(b bitmap, rank map[string]int) byteSets {
+	out := byteSets{}
 	for _, a := range f.arts {
 		r := rank[shortType(a.tn)]
-		if out[r] == nil {
-			out[r] = map[uint64]bool{}
+		v := b[a.id]
+		if len(out[r]) < len(v) {
+			out[r] = append(out[r], make([]bool, len(v)-len(out[r]))...)
 		}
-		for i, x := range b[a.id] {
+		for i, x := range v {
 			if x {
-				out[r][uint64(i)] = true
+				out[r][i] = true
 			}
 		}
 	}
 	return out
 }
 
-func orefBytes(rs []oref) (map[int]map[uint64]bool, bool) {
-	out := map[int]map[uint64]bool{}
+func (f *hflow) maxSize() uint64 {
+	m := uint64(0)
+	for _, a := range f.arts {
+		if a.size > m {
+			m = a.size
+		}
+	}
+	return m
+}
+
+// the bytes the reported references denote; false if they are not resolved to
+// offsets or reach beyond every artifact (then they cannot denote artifact bytes)
+func orefBytes(rs []oref, max uint64) (byteSets, bool) {
+	out := byteSets{}
 	for _, r := range rs {
 		if !r.nomap {
 			return nil, false // reported ranges must be resolved to offsets
 		}
 		if out[r.key] == nil {
-			out[r.key] = map[uint64]bool{}
+			out[r.key] = make([]bool, max)
 		}
 		for _, x := range r.ranges {
-			if x[1] < x[0] || x[1]-x[0] > 1<<24 {
+			if x[1] < x[0] || x[1] > max {
 				return nil, false
 			}
 			for k := x[0]; k < x[1]; k++ {
@@ -180,22 +197,19 @@ func orefBytes(rs []oref) (map[int]map[uint64]bool, bool) {
 	return out, true
 }
 
-func sameBytes(a, b map[int]map[uint64]bool) bool {
-	for k, v := range a {
-		for o := range v {
-			if !b[k][o] {
-				return false
+func sameBytes(a, b byteSets) bool {
+	sub := func(a, b byteSets) bool {
+		for k, v := range a {
+			w := b[k]
+			for i, x := range v {
+				if x && (i >= len(w) || !w[i]) {
+					return false
+				}
 			}
 		}
+		return true
 	}
-	for k, v := range b {
-		for o := range v {
-			if !a[k][o] {
-				return false
-			}
-		}
-	}
-	return true
+	return sub(a, b) && sub(b, a)
 }
 
 // the issues with the ranges of every reported reference in ascending order (a
@@ -242,13 +256,19 @@ func (f *hflow) oracle(c *gal.Ctx, idx int, res *runResult, stages []stageObs, s
 	// ----- the log says the same after validation -----
 	blames := make([]blame, len(stages))
 	firstChanged := -1
+	listed := smallSpare // may a rewrite of the log still be the listed finding?
+	listedAtFirst := false
 	for k, st := range stages {
+		if st.foreign != "" {
+			// a write that is not the listed finding: nothing from here on is attributed to it
+			listed = false
+		}
 		if d := snapDiff(snap0, st.snap); d != "" {
 			if firstChanged < 0 {
-				firstChanged = k
+				firstChanged, listedAtFirst = k, listed
 			}
 			b := blame{aliasing: true, note: fmt.Sprintf(" [the log had been rewritten by %s: %s]", stages[firstChanged].name(), snapDiff(snap0, stages[firstChanged].snap))}
-			if smallSpare {
+			if listed {
 				b.known = findBacking
 			}
 			blames[k] = b
@@ -258,13 +278,16 @@ func (f *hflow) oracle(c *gal.Ctx, idx int, res *runResult, stages []stageObs, s
 		c.OracleOK()
 	} else {
 		st := stages[firstChanged]
-		what := fmt.Sprintf("validating the log rewrites it: after %s %s; every later validator or pass judges different measurements than the flow made",
+		what := fmt.Sprintf("validating the log rewrites it: after %s %s; every later validator or pass is given a different flow than the one that ran",
 			st.name(), snapDiff(snap0, st.snap))
+		if st.foreign != "" {
+			what += " (" + st.foreign + ")"
+		}
 		site := siteVAP
 		if st.kind == 1 {
 			site = siteVFC
 		}
-		if smallSpare {
+		if listedAtFirst {
 			c.OracleFailKnown(idx, findBacking, what, site, f.descr())
 		} else {
 			c.OracleFail(idx, what, site, f.descr())
@@ -454,19 +477,35 @@ func (f *hflow) oracleVAP(c *gal.Ctx, idx int, rank map[string]int, st stageObs,
 		}
 		got[o.step] = o
 	}
-	for step, u := range expUnprot {
+	sortedKeys := func(n int, has func(int) bool) []int {
+		var ks []int
+		for i := 0; i < n; i++ {
+			if has(i) {
+				ks = append(ks, i)
+			}
+		}
+		return ks
+	}
+	nSteps := len(f.steps) + 1
+	for _, o := range oVAP {
+		if o.step >= nSteps {
+			nSteps = o.step + 1
+		}
+	}
+	for _, step := range sortedKeys(nSteps, func(i int) bool { _, ok := expUnprot[i]; return ok }) {
+		u := expUnprot[step]
 		o, ok := got[step]
 		if !ok {
 			fail(knownFor(step, false), fmt.Sprintf("step %d hands control to an actor whose code bytes %s no earlier step measured, but no issue is reported", step, u))
 			return
 		}
-		gb, okb := orefBytes(o.nm)
+		gb, okb := orefBytes(o.nm, f.maxSize())
 		if !okb || !sameBytes(gb, f.byRank(u, rank)) {
 			fail(knownFor(step, false), fmt.Sprintf("step %d: the reported non-measured ranges %v do not denote exactly the unprotected bytes %s", step, o.nm, u))
 			return
 		}
 	}
-	for step := range got {
+	for _, step := range sortedKeys(nSteps, func(i int) bool { _, ok := got[i]; return ok }) {
 		if _, ok := expUnprot[step]; !ok {
 			fail(knownFor(step, true), fmt.Sprintf("issue reported for step %d although no new actor with unprotected code takes over there", step))
 			return
@@ -533,31 +572,15 @@ func (f *hflow) oracleVFC(c *gal.Ctx, idx int, st stageObs, bl blame, allMeasure
 		fail(known, fmt.Sprintf("bytes %s of executable files are not measured; expected one coverage issue at step %d, got %v", u, last, oVFC))
 		return
 	}
-	gb, okb := orefBytes(oVFC[0].nm)
-	exp := map[int]map[uint64]bool{f.img.id: {}}
-	for i, x := range u[f.img.id] {
-		if x {
-			exp[f.img.id][uint64(i)] = true
-		}
-	}
+	gb, okb := orefBytes(oVFC[0].nm, f.maxSize())
+	exp := byteSets{f.img.id: u[f.img.id]}
 	if !okb || !sameBytes(gb, exp) {
 		fail(known, fmt.Sprintf("NonMeasured %v does not denote exactly the uncovered bytes %s", oVFC[0].nm, u))
 		return
 	}
 	// Measured must denote exactly what was measured (on the image)
-	mb, okm := orefBytes(oVFC[0].meas)
-	expM := map[int]map[uint64]bool{}
-	for id, v := range allMeasured {
-		for i, x := range v {
-			if x {
-				if expM[id] == nil {
-					expM[id] = map[uint64]bool{}
-				}
-				expM[id][uint64(i)] = true
-			}
-		}
-	}
-	if !okm || !sameBytes(mb, expM) {
+	mb, okm := orefBytes(oVFC[0].meas, f.maxSize())
+	if !okm || !sameBytes(mb, byteSets(allMeasured)) {
 		fail(known, fmt.Sprintf("ErrNotFullCoverage.Measured %v does not denote exactly the measured bytes %s", oVFC[0].meas, allMeasured))
 		return
 	}
